@@ -78,7 +78,7 @@ class ByteInterval(Node):
 
         def update(self, *iterables: typing.Iterable[ByteBlock]) -> None:
             node_ir = self._node.ir
-            new_items = set(*iterables) - self._data
+            new_items = set().union(*iterables) - self._data
             for v in new_items:
                 if v._byte_interval is not None:
                     v._byte_interval.blocks.discard(v)
